@@ -61,6 +61,8 @@ def suites(prop: str, tier: str) -> t.List[Suite]:
             Suite('d0-async', GEN + ['corpus'], ['outcome', 'varies'], 0, ['async'], symptoms=sym),
             Suite('d0-thread', GEN + ['corpus'], ['outcome', 'varies'], 0, ['thread'], symptoms=sym),
             Suite('twice', ['twice'], ['outcome', 'varies'], 0, ['async'], symptoms=sym),
+            # a one-of candidate that is also a plain Input of another node (F-D20 hangs about half of these; the others work)
+            Suite('candidate-shared', ['candshared'], ['outcome', 'varies'], 0, ['async'], symptoms=sym),
             Suite('shared-gated-complete', ['corpus', 'switch', 'oneof'], ['outcome', 'varies'], 0, ['async'], collab={'mode': 'gated', 'gate_kinds': ['node_complete']},
                   symptoms=sym, plans='ok', max_nodes=8 if q else 9, require_tag='node-requested-from-two-scopes', limit=30000),
             Suite('shared-gated-start', ['corpus', 'switch', 'oneof'], ['outcome', 'varies'], 0, ['async'], collab={'mode': 'gated', 'gate_kinds': ['node_start']},
@@ -105,6 +107,7 @@ def suites(prop: str, tier: str) -> t.List[Suite]:
             Suite('d0-async', GEN + ['corpus'], ['kwargs'], 0, ['async'], symptoms=KW),
             Suite('d0-thread', GEN + ['corpus'], ['kwargs'], 0, ['thread'], symptoms=KW),
             Suite('twice', ['twice'], ['kwargs'], 0, ['async'], symptoms=KW),
+            Suite('candidate-shared', ['candshared'], ['kwargs'], 0, ['async'], symptoms=KW),
             # the caller passes an object that can be neither copied nor pickled, plus a key the input node does not declare:
             # the input node must receive exactly these
             Suite('opaque-input', ['corpus', 'plain', 'rec'], ['kwargs'], 0, ['async', 'thread'], symptoms=KW, max_nodes=4 if q else 5,
@@ -125,6 +128,7 @@ def suites(prop: str, tier: str) -> t.List[Suite]:
         return [
             Suite('yield-d0', GEN + ['corpus'], ['counts', 'kwargs'], 0, ['async'], collab={'mode': 'yield'}, symptoms=sym),
             Suite('twice', ['twice'], ['counts', 'kwargs'], 0, ['async'], collab={'mode': 'yield'}, symptoms=sym),
+            Suite('candidate-shared', ['candshared'], ['counts', 'kwargs'], 0, ['async'], collab={'mode': 'yield'}, symptoms=sym),
             Suite('shared-gated-complete', ['corpus', 'switch', 'oneof'], ['counts', 'kwargs'], 0, ['async'], collab={'mode': 'gated', 'gate_kinds': ['node_complete']},
                   symptoms=sym, plans='ok', max_nodes=8 if q else 9, require_tag='node-requested-from-two-scopes', limit=30000),
             Suite('shared-gated-start', ['corpus', 'switch', 'oneof'], ['counts', 'kwargs'], 0, ['async'], collab={'mode': 'gated', 'gate_kinds': ['node_start']},
@@ -223,6 +227,7 @@ def suites(prop: str, tier: str) -> t.List[Suite]:
                   symptoms=None, plans='ok', max_nodes=8 if q else 9, require_tag='node-requested-from-two-scopes', limit=30000),
 
             Suite('yield', GEN + ['corpus'], ['events'], 0, ['thread'], collab={'mode': 'yield', 'two_managers': True}, symptoms=None),
+            Suite('candidate-shared', ['candshared'], ['events'], 0, ['async'], symptoms=None),
         ] + ([] if q else [Suite('composed', COMPOSED, ['events'], 0, ['async'], symptoms=None)]) + [
             Suite('gated', ['corpus', 'plain'] + ([] if q else ['oneof', 'switch', 'rec']), ['events'], 0, ['async'],
                   collab={'mode': 'gated', 'two_managers': not q}, symptoms=None, max_nodes=4, limit=20000),
